@@ -258,6 +258,141 @@ def layer_index(fc, lay, at, depth=0):
     return None
 
 
+def enclosing_loops(fc, node_ast):
+    out = []
+    p = fc.model.up(node_ast)
+    while p is not None and p is not fc.fn:
+        if isinstance(p, (ast.For, ast.While)):
+            out.append(p)
+        p = fc.model.up(p)
+    return out
+
+
+def cell_sweep(fc, cell, at):
+    """Which cells does the statement at CFG node `at` visit through the variable `cell` (AST Name)?
+    Returns None when `cell` is not the element variable of a loop nest over the node list, else a dict
+      layers: ("all",) | ("from", a) [layers a..deepest] | ("range", a, b) [layers a..b-1, ASTs] | ("one", h)
+      loops:  the For statements of the nest (outermost first)
+      partial: reasons why a loop of the nest may skip cells (break / continue / return inside, slicing, filters are NOT included)
+    Recognised nests:  for layer in NL[: or a:]: for cell in layer   |  for h, layer in enumerate(NL): for cell in layer
+                       for h in range(a, b): for cell in NL[h] / get_layer_node_list(h)   |  index forms `cell = layer[i]` with
+                       `for i in range(len(layer))`, and enumerate(layer)."""
+    if not isinstance(cell, ast.Name):
+        return None
+    ds, entry = fc.reaching(cell.id, at)
+    if entry or len(ds) != 1:
+        return None
+    n, r = ds[0]
+    inner = None
+    layer_expr = None
+    if r[0] == "for":
+        layer_expr = element_var_of_loop(r, cell.id)
+        inner = n.ast
+    elif r[0] == "assign" and isinstance(r[1], ast.Subscript) and isinstance(r[1].slice, ast.Name):
+        # cell = layer[i] with i the variable of `for i in range(len(layer))` enclosing the assignment
+        i = r[1].slice.id
+        di, ei = fc.reaching(i, n)
+        if not ei and len(di) == 1 and di[0][1][0] == "for":
+            it = di[0][1][1]
+            if isinstance(it, ast.Call) and _src(it.func) == "range" and len(it.args) == 1 and _src(it.args[0]) == "len(%s)" % _src(r[1].value) \
+                    and isinstance(di[0][1][2], ast.Name):
+                layer_expr = r[1].value
+                inner = di[0][0].ast
+    if layer_expr is None or inner is None:
+        return None
+    loops = [inner]
+    layers = None
+    head = fc.cfg.node_of(inner)
+    # the layer: NL[h] / get_layer_node_list(h) with h a range variable, or the element variable of a loop over NL
+    if isinstance(layer_expr, ast.Name):
+        dl, el = fc.reaching(layer_expr.id, head)
+        if el or len(dl) != 1:
+            return None
+        m, rl = dl[0]
+        if rl[0] == "assign":
+            layer_expr, head = rl[1], m
+        elif rl[0] == "for":
+            it, tg = rl[1], rl[2]
+            src_list = None
+            if isinstance(tg, ast.Name):
+                src_list = it
+            elif isinstance(tg, ast.Tuple) and len(tg.elts) == 2 and isinstance(it, ast.Call) and _src(it.func) == "enumerate" and len(it.args) == 1 \
+                    and _src(tg.elts[1]) == layer_expr.id:
+                src_list = it.args[0]
+            if src_list is None:
+                return None
+            lo = None
+            base = src_list
+            derived = False
+            while True:
+                if isinstance(base, ast.Subscript) and isinstance(base.slice, ast.Slice):
+                    if base is src_list and base.slice.upper is None and base.slice.step is None:
+                        lo = base.slice.lower
+                    else:
+                        derived = True
+                    base = base.value
+                elif isinstance(base, ast.Call) and isinstance(base.func, ast.Name) and base.func.id in ("reversed", "list") and len(base.args) == 1:
+                    derived = True
+                    base = base.args[0]
+                else:
+                    break
+            if not is_nodelist_expr(fc, base, m):
+                return None
+            loops.insert(0, m.ast)
+            if derived:
+                layers = ("seq", src_list)
+            else:
+                layers = ("all",) if lo is None or _src(lo) == "0" else ("from", lo)
+        else:
+            return None
+    if layers is None:
+        h = layer_index(fc, layer_expr, head)
+        if h is None:
+            return None
+        if isinstance(h, ast.Name):
+            dh, eh = fc.reaching(h.id, head)
+            if not eh and len(dh) == 1 and dh[0][1][0] == "for" and isinstance(dh[0][1][2], ast.Name):
+                it = dh[0][1][1]
+                if isinstance(it, ast.Call) and _src(it.func) == "range" and len(it.args) in (1, 2) and not it.keywords:
+                    a = it.args[0] if len(it.args) == 2 else ast.Constant(value=0)
+                    b = it.args[-1]
+                    layers = ("range", a, b)
+                    loops.insert(0, dh[0][0].ast)
+        if layers is None:
+            layers = ("one", h)
+    partial = []
+    for L in loops:
+        for x in ast.walk(L):
+            if isinstance(x, (ast.Break, ast.Return)) or (isinstance(x, ast.Continue)):
+                # a continue/break that belongs to a loop nested deeper than the visit statement does not cut the sweep short
+                owner = fc.model.up(x)
+                while owner is not None and not isinstance(owner, (ast.For, ast.While)):
+                    owner = fc.model.up(owner)
+                if isinstance(x, ast.Return) or owner in loops:
+                    partial.append("%s at line %s" % (type(x).__name__.lower(), x.lineno))
+    return dict(layers=layers, loops=loops, partial=partial)
+
+
+def sweep_is_all_layers(fc, sw, min_layer=0):
+    """Does the sweep cover every layer from `min_layer` to the deepest one?"""
+    if sw is None:
+        return False
+    lay = sw["layers"]
+    depth_plus_1 = ("self.partition.get_depth() + 1", "1 + self.partition.get_depth()", "len(self.partition.get_node_list())",
+                    "self.partition.depth + 1")
+    if lay[0] == "all":
+        return min_layer >= 0
+    if lay[0] == "seq":
+        # a reordering of the whole node list covers every layer
+        return _src(lay[1]).replace(" ", "") in ("reversed(%s)" % x for x in NODELIST_CALLS) or \
+            any(_src(lay[1]).replace(" ", "") == x + "[::-1]" for x in NODELIST_CALLS)
+    if lay[0] == "from":
+        return _src(lay[1]) in [str(k) for k in range(0, min_layer + 1)]
+    if lay[0] == "range":
+        return _src(lay[1]) in [str(k) for k in range(0, min_layer + 1)] and _src(lay[2]) in depth_plus_1
+    return False
+
+
 def element_var_of_loop(r, name):
     """For a definition record ('for', iter, target) of `name`: the iterable whose ELEMENTS the name ranges over
     (for x in L -> L; for i, x in enumerate(L) -> L when name is x), else None."""
@@ -474,6 +609,9 @@ def proves_depth(fc, X, D, at):
                     return True, "cell taken from layer [%s] under the guard %s == %s (line %s)" % (lay.value, dsrc, lay.value, t.line)
             return False, "cell comes from layer [%s] but D is '%s' and no guard equates them" % (lay.value, dsrc)
         # different expressions: try pairing through definitions below
+    r = _range_counter_depth(fc, X, D, at)
+    if r is not None:
+        return r
     # (c) paired definitions: every definition of X reaching the call has a twin definition of D
     if (isinstance(X, ast.Name) or is_self_attr(X)) and (isinstance(D, ast.Name) or is_self_attr(D)):
         dx, ex = fc.reaching(xs, at)
@@ -517,6 +655,68 @@ def proves_depth(fc, X, D, at):
                 return False, "%s has a definition that is not paired with a definition of %s" % (dsrc, xs)
             return True, "%s and %s are defined in lock-step (%d paired definitions)" % (xs, dsrc, len(dx))
     return False, "'%s' is not recognised as the depth of cell '%s'" % (dsrc, xs)
+
+
+def _range_counter_depth(fc, X, D, at):
+    """(d) D is the variable of `for D in range(a, b)` and X descends one level per iteration: depth(X) == D at the loop
+    head by induction - X has depth a when the loop is entered, and every iteration performs exactly one unconditional
+    step X = X.get_children()[..] (no other definition of X, no continue), after the point `at`."""
+    xs, dsrc = _src(X), _src(D)
+    if not isinstance(D, ast.Name) or not (isinstance(X, ast.Name) or is_self_attr(X)):
+        return None
+    dd, ed = fc.reaching(dsrc, at)
+    if ed or len(dd) != 1 or dd[0][1][0] != "for":
+        return None
+    head, (_, it, tgt) = dd[0]
+    loop = head.ast
+    if not (isinstance(tgt, ast.Name) and isinstance(it, ast.Call) and isinstance(it.func, ast.Name) and it.func.id == "range" and
+            len(it.args) in (1, 2) and not it.keywords and isinstance(loop, ast.For)):
+        return None
+    a = it.args[0] if len(it.args) == 2 else ast.Constant(value=0)
+    inside = {id(x) for b in loop.body for x in ast.walk(b)}
+    if id(at.ast) not in inside and not any(id(x) in inside for x in ast.walk(at.ast)):
+        return None
+    if any(isinstance(x, ast.Continue) for b in loop.body for x in ast.walk(b)):
+        return False, "the loop over %s contains a continue: a level could be skipped without stepping %s" % (dsrc, xs)
+    steps = []
+    for b in loop.body:
+        for x in ast.walk(b):
+            tg = x.targets if isinstance(x, ast.Assign) else ([x.target] if isinstance(x, (ast.AugAssign, ast.AnnAssign, ast.For)) else [])
+            for t in tg:
+                for y in ast.walk(t):
+                    if _src(y) == xs and isinstance(getattr(y, "ctx", None), ast.Store):
+                        steps.append((b, x))
+    if len(steps) != 1 or steps[0][0] is not steps[0][1] or not isinstance(steps[0][1], ast.Assign) or not _is_child_step(steps[0][1].value, xs):
+        return False, "%s is not stepped to one of its children exactly once, unconditionally, per iteration of the loop over %s" % (xs, dsrc)
+    step_node = fc.cfg.node_of(steps[0][1])
+    if fc.cfg.paths_avoiding(step_node, at, [head]):
+        return False, "%s is used after it was stepped to a child within the same iteration" % xs
+    pre = [q for q in fc.cfg.G.predecessors(head) if getattr(q, "ast", None) is None or
+           (id(q.ast) not in inside and q.ast is not loop)]
+    ok, how = bool(pre), "loop has no entry edge"
+    for q in pre:
+        # the state just after q == the state in which the loop is entered; q itself may be the definition of X
+        succs = [t for t in fc.cfg.G.successors(q)]
+        ok, how = proves_depth_after(fc, X, a, q, head)
+        if not ok:
+            break
+    if not ok:
+        return False, "at the entry of the loop over %s, %s is not shown to have depth %s: %s" % (dsrc, xs, _src(a), how)
+    return True, "%s descends one level per iteration of `for %s in range(%s, ..)` and has depth %s at loop entry (%s)" % (xs, dsrc, _src(a), _src(a), how)
+
+
+def proves_depth_after(fc, X, D, q, head):
+    """proves_depth in the state in which `head` is entered from its predecessor q (definitions flowing around the loop's back
+    edge are not considered): judged with the loop's other incoming edges cut."""
+    G = fc.cfg.G
+    cut = [(p, head, dict(G[p][head])) for p in list(G.predecessors(head)) if p is not q]
+    for p, h, _ in cut:
+        G.remove_edge(p, h)
+    try:
+        return proves_depth(fc, X, D, head)
+    finally:
+        for p, h, data in cut:
+            G.add_edge(p, h, **data)
 
 
 def _is_child_step(rhs, xs):
